@@ -5,9 +5,9 @@
    JSON input.  One step of the property loop at a time: the value a step stores is the value
    the same step stores again when it is handed that value's encoding (clean_encode_idem), or
    nothing when the encoder dropped it as a defaulted optional.                       *)
-From Coq Require Import NArith ZArith List String Bool Lia.
+From Coq Require Import NArith ZArith List String Bool Lia Permutation.
 From V Require Import Base.UString Base.Json Model.SchemaTypes Model.PyBase Model.Schema.
-From V Require Import Proofs.C01Basics Proofs.C01Kinds Proofs.C01Float Proofs.C01KindsAll.
+From V Require Import Proofs.C01Basics Proofs.C01Kinds Proofs.C01Float Proofs.C01KindsAll Proofs.C01Sort.
 Import ListNotations.
 
 (* ------------------------------------------------------------------ association lists, continued *)
@@ -298,8 +298,7 @@ Section Obj.
         assert (Ev0 : v0 = PJ (JStr (prefix ++ e_uuid4 ev))).
         { cbn [clean_kind] in Eid. unfold bind in Eid. destruct (validate_id vr (prefix ++ e_uuid4 ev) v (Some prefix) interop); try discriminate. inv_ok Eid. reflexivity. }
         subst v0. cbn [encode] in HK'. rewrite HK'. cbn [nullish].
-        rewrite (cp_given sl (JStr (prefix ++ e_uuid4 ev)) s (PJ (JStr (prefix ++ e_uuid4 ev))) h0);
-          [reflexivity | rewrite Eknd; exact Eid | exact Er].
+        erewrite cp_given; [reflexivity | rewrite Eknd; exact Eid | exact Er].
       + (* a constant default *)
         destruct (skind sl) eqn:Eknd; try discriminate. destruct j; try discriminate. cbn [fst snd] in Ec.
         unfold clean_present in Ec. rewrite alookup_aset_same in Ec. rewrite Eknd in Ec. cbn [clean_kind clean_bool] in Ec.
@@ -313,4 +312,312 @@ Section Obj.
           rewrite (cp_given sl (JBool b0) s (PJ (JBool b0)) false);
             [reflexivity | rewrite Eknd; reflexivity | exact Er].
   Qed.
+
+  (* ---------------------------------------------------------------- shape of a step *)
+  Definition same_or_set (n : ustring) (s s' : list (ustring * pval)) : Prop :=
+    s' = s \/ exists v, s' = aset n v s.
+
+  Lemma sos_refl : forall n s, same_or_set n s s.
+  Proof. left. reflexivity. Qed.
+  Lemma sos_set : forall n v s, same_or_set n s (aset n v s).
+  Proof. right. eauto. Qed.
+  Lemma sos_trans : forall n s1 s2 s3, same_or_set n s1 s2 -> same_or_set n s2 s3 -> same_or_set n s1 s3.
+  Proof.
+    intros n s1 s2 s3 [E1 | [v1 E1]] [E2 | [v2 E2]]; subst.
+    - left. reflexivity.
+    - right. eauto.
+    - right. eauto.
+    - right. exists v2. apply aset_aset.
+  Qed.
+
+  Lemma default_value_shape : forall sl s1 s2 b,
+    default_value vr ev sl s1 = Ok (s2, b) -> same_or_set (sname sl) s1 s2.
+  Proof.
+    intros sl s1 s2 b Ed. unfold default_value in Ed.
+    destruct (alookup (sname sl) s1); [inv_ok Ed; apply sos_refl |].
+    destruct (sdef sl); try (inv_ok Ed; apply sos_refl).
+    - destruct (skind sl); try discriminate. inv_ok Ed. apply sos_set.
+    - destruct (skind sl); try discriminate. unfold bind in Ed.
+      destruct (ts_clean_now (vr_year_pad vr) p c0 (e_now ev)); try discriminate. inv_ok Ed. apply sos_set.
+    - destruct (skind sl); try discriminate. inv_ok Ed. apply sos_set.
+    - inv_ok Ed. apply sos_set.
+  Qed.
+
+  Lemma clean_present_shape : forall sl s2 isnow s3 h,
+    clean_present vr w rc rp ro c sl allow interop vrefs s2 isnow = Ok (s3, h) -> same_or_set (sname sl) s2 s3.
+  Proof.
+    intros sl s2 isnow s3 h Ec. unfold clean_present in Ec.
+    destruct (alookup (sname sl) s2) as [raw |]; [| inv_ok Ec; apply sos_refl].
+    destruct isnow; [inv_ok Ec; apply sos_refl |].
+    destruct raw.
+    - destruct (CK (skind sl) allow interop j) as [[v h0] | |]; try discriminate.
+      unfold bind in Ec. destruct (refs_ok c sl vrefs v); try discriminate. inv_ok Ec. apply sos_set.
+    - destruct (vr_marking_flag vr); [destruct (negb allow && pval_has_custom (PTime us text)); try discriminate |]; inv_ok Ec; apply sos_refl.
+    - destruct (vr_marking_flag vr); [destruct (negb allow && pval_has_custom (PArr l)); try discriminate |]; inv_ok Ec; apply sos_refl.
+    - destruct (vr_marking_flag vr); [destruct (negb allow && pval_has_custom (PMap m)); try discriminate |]; inv_ok Ec; apply sos_refl.
+    - destruct (vr_marking_flag vr); [destruct (negb allow && pval_has_custom (PObject cid inner defaulted hc)); try discriminate |]; inv_ok Ec; apply sos_refl.
+  Qed.
+
+  Lemma step_shape : forall K n s hc s' hc', step K n s hc = Ok (s', hc') -> same_or_set n s s'.
+  Proof.
+    intros K n s hc s' hc' H. unfold step in H. rewrite assign_raw_spec in H.
+    assert (A : same_or_set n s (match alookup n K with Some j => if nullish j then s else aset n (PJ j) s | None => s end)).
+    { destruct (alookup n K) as [j |]; [destruct (nullish j) |]; try apply sos_refl. apply sos_set. }
+    destruct (slot_of c n) as [sl |] eqn:Es.
+    - destruct (slot_of_In n sl Es) as [_ En]. subst n. unfold bind in H.
+      match type of H with match CP c sl allow interop vrefs ?s1 with _ => _ end = _ =>
+        destruct (CP c sl allow interop vrefs s1) as [[a b] | |] eqn:Ec; try discriminate end.
+      inv_ok H. cbn [fst]. unfold check_property, bind in Ec.
+      match type of Ec with match default_value vr ev sl ?s1 with _ => _ end = _ =>
+        destruct (default_value vr ev sl s1) as [[s2 isnow] | |] eqn:Ed; try discriminate end.
+      cbn [fst snd] in Ec.
+      eapply sos_trans; [exact A |]. eapply sos_trans; [eapply default_value_shape; eauto | eapply clean_present_shape; eauto].
+    - inv_ok H. exact A.
+  Qed.
+
+  Lemma sos_keys : forall n s s', same_or_set n s s' -> amem n s = false ->
+    map fst s' = map fst s ++ (if amem n s' then [n] else []).
+  Proof.
+    intros n s s' [E | [v E]] Hf; subst.
+    - rewrite Hf. rewrite app_nil_r. reflexivity.
+    - rewrite aset_keys_notin by assumption. unfold amem. rewrite alookup_aset_same. reflexivity.
+  Qed.
+
+  Lemma sos_frame : forall n s s' m, same_or_set n s s' -> m <> n -> alookup m s' = alookup m s.
+  Proof. intros n s s' m [E | [v E]] Hne; subst; auto. apply alookup_aset_other. exact Hne. Qed.
+
+  (* ---------------------------------------------------------------- the loop *)
+  Lemma loop_frame : forall K l s hc S hcf m,
+    LOOP K [] [] l s hc = Ok (S, hcf) -> ~ In m l -> alookup m S = alookup m s.
+  Proof.
+    induction l as [| n rest IH]; intros s hc S hcf m H Hm.
+    - cbn [assign_loop] in H. inv_ok H. reflexivity.
+    - rewrite loop_cons in H. unfold bind in H.
+      destruct (step K n s hc) as [[s1 h1] | |] eqn:Es; try discriminate. cbn [fst snd] in H.
+      rewrite (IH _ _ _ _ m H) by (intros Hin; apply Hm; right; exact Hin).
+      eapply sos_frame; [eapply step_shape; eauto |]. intros E. apply Hm. left. auto.
+  Qed.
+
+  Lemma loop_keys : forall K l s hc S hcf,
+    NoDup l -> (forall n, In n l -> amem n s = false) ->
+    LOOP K [] [] l s hc = Ok (S, hcf) ->
+    map fst S = map fst s ++ filter (fun n => amem n S) l.
+  Proof.
+    induction l as [| n rest IH]; intros s hc S hcf ND Hf H.
+    - cbn [assign_loop] in H. inv_ok H. cbn [filter]. rewrite app_nil_r. reflexivity.
+    - rewrite loop_cons in H. unfold bind in H.
+      destruct (step K n s hc) as [[s1 h1] | |] eqn:Es; try discriminate. cbn [fst snd] in H.
+      inversion ND; subst.
+      pose proof (step_shape _ _ _ _ _ _ Es) as Sh.
+      assert (Hf1 : forall m, In m rest -> amem m s1 = false).
+      { intros m Hm. unfold amem. rewrite (sos_frame _ _ _ m Sh).
+        - apply Hf. right. exact Hm.
+        - intros E. subst. contradiction. }
+      rewrite (IH _ _ _ _ H3 Hf1 H).
+      rewrite (sos_keys _ _ _ Sh (Hf n (or_introl eq_refl))).
+      assert (En : amem n S = amem n s1). { unfold amem. rewrite (loop_frame _ _ _ _ _ _ n H H2). reflexivity. }
+      cbn [filter]. rewrite En. rewrite <- app_assoc. destruct (amem n s1); reflexivity.
+  Qed.
+
+  Lemma loop_rerun : forall K K' (dfl : list ustring) l s hc S hcf,
+    NoDup l -> (forall n, In n l -> amem n s = false) ->
+    LOOP K [] [] l s hc = Ok (S, hcf) ->
+    (forall n j, In n l -> alookup n K = Some j -> nullish j = false /\ plain_json j = true /\ n <> ext_key) ->
+    (forall n, In n l -> mem_ustr n dfl = true ->
+       exists sl b, slot_of c n = Some sl /\ sdef sl = DConst (JBool b) /\ alookup n S = Some (PJ (JBool b))) ->
+    (forall n, In n l ->
+       alookup n K' = match alookup n S with
+                      | Some v => if mem_ustr n dfl then None else Some (encode false v)
+                      | None => None
+                      end) ->
+    LOOP K' [] [] l s hc = Ok (S, hcf).
+  Proof.
+    induction l as [| n rest IH]; intros s hc S hcf ND Hf H HK HD HK'.
+    - cbn [assign_loop] in *. exact H.
+    - rewrite loop_cons in *. unfold bind in *.
+      destruct (step K n s hc) as [[s1 h1] | |] eqn:Es; try discriminate. cbn [fst snd] in H.
+      inversion ND; subst.
+      pose proof (step_shape _ _ _ _ _ _ Es) as Sh.
+      assert (En : alookup n S = alookup n s1) by (apply (loop_frame _ _ _ _ _ _ n H H2)).
+      rewrite (step_agree K K' n s hc s1 h1 (mem_ustr n dfl)).
+      + cbn [fst snd]. apply IH; auto.
+        * intros m Hm. unfold amem. rewrite (sos_frame _ _ _ m Sh).
+          -- apply Hf. right. exact Hm.
+          -- intros E. subst. contradiction.
+        * intros m j Hm. apply HK. right. exact Hm.
+        * intros m Hm. apply HD. right. exact Hm.
+        * intros m Hm. apply HK'. right. exact Hm.
+      + apply Hf. left. reflexivity.
+      + exact Es.
+      + intros j. apply HK. left. reflexivity.
+      + intros Hd. destruct (HD n (or_introl eq_refl) Hd) as [sl [b [E1 [E2 E3]]]]. exists sl, b. rewrite <- En. auto.
+      + rewrite <- En. apply HK'. left. reflexivity.
+  Qed.
+
+  (* ---------------------------------------------------------------- list helpers *)
+  Lemma filter_all_false : forall (A : Type) (f : A -> bool) l, (forall x, In x l -> f x = false) -> filter f l = [].
+  Proof. induction l as [| x r IH]; intros H; cbn [filter]; auto. rewrite (H x (or_introl eq_refl)). apply IH. intros y Hy. apply H. right. exact Hy. Qed.
+  Lemma filter_all_true : forall (A : Type) (f : A -> bool) l, (forall x, In x l -> f x = true) -> filter f l = l.
+  Proof. induction l as [| x r IH]; intros H; cbn [filter]; auto. rewrite (H x (or_introl eq_refl)). f_equal. apply IH. intros y Hy. apply H. right. exact Hy. Qed.
+
+  Lemma forallb_usort : forall f l, forallb f (usort l) = forallb f l.
+  Proof.
+    intros f l. destruct (forallb f l) eqn:E.
+    - apply forallb_forall. intros x Hx. rewrite forallb_forall in E. apply E. apply In_usort. exact Hx.
+    - apply not_true_is_false. intros E2. rewrite forallb_forall in E2.
+      assert (forallb f l = true). { apply forallb_forall. intros x Hx. apply E2. apply In_usort. exact Hx. } congruence.
+  Qed.
+  Lemma existsb_usort : forall f l, existsb f (usort l) = existsb f l.
+  Proof.
+    intros f l. destruct (existsb f l) eqn:E.
+    - apply existsb_exists in E. destruct E as [x [Hx Hf]]. apply existsb_exists. exists x. split; auto. apply In_usort. exact Hx.
+    - apply not_true_is_false. intros E2. apply existsb_exists in E2. destruct E2 as [x [Hx Hf]].
+      assert (existsb f l = true). { apply existsb_exists. exists x. split; auto. apply In_usort. exact Hx. } congruence.
+  Qed.
+  Lemma usort_nil : forall l, match usort l with [] => true | _ => false end = match l with [] => true | _ => false end.
+  Proof.
+    intros l. pose proof (usort_perm l) as P. destruct l as [| x r].
+    - reflexivity.
+    - destruct (usort (x :: r)) eqn:E; auto. apply Permutation_nil in P. discriminate.
+  Qed.
+
+  Lemma slot_of_unique : forall sl, In sl (cslots c) -> slot_of c (sname sl) = Some sl.
+  Proof.
+    unfold slot_of. intros sl Hin. revert Hnodup Hin. generalize (cslots c). induction l as [| s0 r IH]; intros ND Hin; [contradiction |].
+    cbn [find map] in *. inversion ND; subst. destruct Hin as [E | Hin].
+    - subst. rewrite ustr_eqb_refl. reflexivity.
+    - destruct (ustr_eqb (sname s0) (sname sl)) eqn:E.
+      + apply ustr_eqb_eq in E. exfalso. apply H1. rewrite E. apply in_map. exact Hin.
+      + apply IH; auto.
+  Qed.
+
+  Lemma mem_defaulted : forall n S, mem_ustr n (defaulted_names c S) = true ->
+    exists sl b, slot_of c n = Some sl /\ sdef sl = DConst (JBool b) /\ alookup n S = Some (PJ (JBool b)).
+  Proof.
+    intros n S H. apply mem_ustr_In in H. unfold defaulted_names in H.
+    apply in_map_iff in H. destruct H as [sl [En Hin]]. apply filter_In in Hin. destruct Hin as [Hin Hc].
+    subst n. apply andb_true_iff in Hc. destruct Hc as [_ Hc].
+    rewrite forallb_forall in Hslots. pose proof (Hslots sl Hin) as Hok. unfold slot_ok in Hok.
+    apply andb_true_iff in Hok. destruct Hok as [Hok _]. apply andb_true_iff in Hok. destruct Hok as [Hok _].
+    apply andb_true_iff in Hok. destruct Hok as [_ Hdef].
+    destruct (sdef sl) as [| | | | j] eqn:Ed; try discriminate.
+    destruct (skind sl); try discriminate. destruct j; try discriminate.
+    exists sl, b. split; [apply slot_of_unique; exact Hin |]. split; auto.
+    destruct (alookup (sname sl) S) as [x |]; try discriminate. destruct x; try discriminate.
+    apply jvalue_eqb_eq in Hc. subst. reflexivity.
+  Qed.
+
+  Lemma defaulted_are_slots : forall n S, mem_ustr n (defaulted_names c S) = true -> mem_ustr n (map sname (cslots c)) = true.
+  Proof.
+    intros n S H. apply mem_ustr_In in H. apply mem_ustr_In. unfold defaulted_names in H.
+    apply in_map_iff in H. destruct H as [sl [En Hin]]. apply filter_In in Hin. destruct Hin as [Hin _]. subst. apply in_map. exact Hin.
+  Qed.
+
+  (* a custom (non-slot) name given a value is stored raw; a slot without default that is not given stays absent *)
+  Lemma step_custom_stored : forall K n s hc s' hc' j,
+    slot_of c n = None -> alookup n K = Some j -> nullish j = false ->
+    step K n s hc = Ok (s', hc') -> alookup n s' = Some (PJ j).
+  Proof.
+    intros K n s hc s' hc' j Hs Hk Hn H. unfold step in H. rewrite assign_raw_spec in H. rewrite Hs, Hk, Hn in H.
+    inv_ok H. apply alookup_aset_same.
+  Qed.
+
+  Lemma step_absent_stays : forall K n s hc s' hc' sl,
+    slot_of c n = Some sl -> sdef sl = DNone -> alookup n K = None -> amem n s = false ->
+    step K n s hc = Ok (s', hc') -> amem n s' = false.
+  Proof.
+    intros K n s hc s' hc' sl Hs Hd Hk Hf H. unfold step in H. rewrite assign_raw_spec in H. rewrite Hs, Hk in H.
+    destruct (slot_of_In n sl Hs) as [_ En]. subst n. apply amem_alookup_none in Hf.
+    unfold bind, check_property, default_value in H. rewrite Hf, Hd in H. cbn [bind fst snd] in H.
+    unfold clean_present in H. rewrite Hf in H. inv_ok H. apply amem_alookup_none. exact Hf.
+  Qed.
+
+  (* ---------------------------------------------------------------- construct_generic on plain input *)
+  Notation CG := (construct_generic vr ev w pattern_ok selectors_ok rc rp ro).
+
+  Definition PN : list ustring := map sname (cslots c).
+  Definition notPN (k : ustring) : bool := negb (mem_ustr k PN).
+
+  Definition cg_tail (fuel : nat) (AC : list ustring) (r : list (ustring * pval) * bool) : result pval :=
+    let '(setting, hc0) := r in
+    let hc := hc0 || (vr_flag_from_stored vr && existsb (fun n => amem n setting) AC) in
+    if existsb (fun s => sreq s && negb (amem (sname s) setting)) (cslots c) then Err EMissing else
+    let defaulted := defaulted_names c setting in
+    do _ <- match (if existsb (fun k => match k with CSkipBaseCheck => true | _ => false end) (ccons c)
+                    then None else alookup (u "granular_markings") setting) with
+            | Some (PArr gms) => granular_check selectors_ok setting gms
+            | Some _ => Unmodelled
+            | None => Ok tt
+            end;
+    do _ <- constr_all (eval_constr pattern_ok fuel c setting)
+                       ((match cfamily c with FExt => [CAtLeastOneDefault] | _ => [] end) ++ ccons c);
+    if allow then Ok (PObject (cid c) setting defaulted hc)
+    else if hc then Err ESTIXError else Ok (PObject (cid c) setting defaulted false).
+
+  Definition flag0 (AC : list ustring) : bool :=
+    if vr_flag_from_stored vr then false else match AC with [] => false | _ => true end.
+
+  Lemma cg_plain : forall fuel kw,
+    alookup cp_key kw = None -> alookup ext_key kw = None ->
+    CG fuel c allow interop kw [] vrefs =
+    let E := filter notPN (akeys kw) in
+    match E, allow with
+    | _ :: _, false => Err EExtra
+    | _, _ =>
+      let AC := udedup (filter notPN (E ++ [])) in
+      if (match cver c with V21 => negb (forallb re_prefix21 AC) | V20 => false end) then Err EInvalidValue else
+      do r <- LOOP kw [] [] (PN ++ ([] ++ usort AC)) [] (flag0 AC);
+      cg_tail fuel AC r
+    end.
+  Proof.
+    intros fuel kw Hcp Hext. unfold construct_generic.
+    change (u "custom_properties") with cp_key. change (u "extensions") with ext_key.
+    rewrite Hcp. rewrite (aremove_absent _ cp_key kw) by (apply amem_alookup_none; exact Hcp).
+    rewrite Hext. cbn [bind]. rewrite andb_false_r.
+    fold PN. fold notPN. cbn [akeys map app].
+    destruct (filter notPN (akeys kw)) as [| e0 E0]; reflexivity.
+  Qed.
+
+  Lemma cg_tail_shape : forall fuel AC S hc0 o, cg_tail fuel AC (S, hc0) = Ok o ->
+    exists hc, o = PObject (cid c) S (defaulted_names c S) hc.
+  Proof.
+    intros fuel AC S hc0 o H. unfold cg_tail in H.
+    destruct (existsb (fun s => sreq s && negb (amem (sname s) S)) (cslots c)); try discriminate.
+    unfold bind in H.
+    match type of H with match ?g with _ => _ end = _ => destruct g as [[] | |]; try discriminate end.
+    match type of H with match ?g with _ => _ end = _ => destruct g as [[] | |]; try discriminate end.
+    destruct allow.
+    - inv_ok H. eauto.
+    - match type of H with (if ?g then _ else _) = _ => destruct g; try discriminate end. inv_ok H. eauto.
+  Qed.
+
+  Lemma cg_tail_perm : forall fuel AC AC' r,
+    (forall f, existsb f AC' = existsb f AC) -> cg_tail fuel AC' r = cg_tail fuel AC r.
+  Proof. intros fuel AC AC' [S hc0] H. unfold cg_tail. rewrite H. reflexivity. Qed.
+
+  (* the members the object is written with *)
+  Definition written (S : list (ustring * pval)) : list (ustring * jvalue) :=
+    enc_members false (kept false (defaulted_names c S) S).
+
+  Lemma alookup_written : forall S n,
+    alookup n (written S) = match alookup n S with
+                            | Some v => if mem_ustr n (defaulted_names c S) then None else Some (encode false v)
+                            | None => None
+                            end.
+  Proof.
+    intros S n. unfold written. rewrite alookup_enc_members. unfold kept. cbn [orb].
+    rewrite (alookup_filter_key pval (fun k => negb (mem_ustr k (defaulted_names c S))) n S).
+    destruct (mem_ustr n (defaulted_names c S)); cbn [negb option_map]; auto.
+    destruct (alookup n S); reflexivity.
+  Qed.
+
+  Lemma akeys_written : forall S,
+    akeys (written S) = filter (fun k => negb (mem_ustr k (defaulted_names c S))) (map fst S).
+  Proof.
+    intros S. unfold written, akeys, enc_members, kept. rewrite map_map. cbn [fst orb].
+    induction S as [| [k x] r IH]; cbn [filter map fst]; auto.
+    destruct (negb (mem_ustr k (defaulted_names c ((k, x) :: r)))) eqn:E; cbn [map fst].
+    - f_equal.
+      (* the filter predicate does not change along the induction: it is fixed by the outer S *)
+  Abort.
 End Obj.
